@@ -63,7 +63,7 @@ func c13Scenario(c *Ctx, idx int, r *Rng, extra func(l, m, cs string)) (mline, m
 	// below it (D70, repaired).  lockline: a later line that gives a tracked file the `lockable` attribute only
 	// (D71, repaired).  override: a file taken out of LFS by one line and put back by a later one — Git lets the
 	// LAST matching line decide, fsck's include/exclude lists let the exclusion win (D21, known)
-	attrVariant := Pick(r, []string{"plain", "plain", "plain", "plain", "plain", "plain", "plain", "nested", "nested", "lockline", "override"})
+	attrVariant := Pick(r, []string{"plain", "plain", "plain", "plain", "plain", "plain", "nested", "nested", "lockline", "override", "padded", "padded"})
 	nested, override := attrVariant == "nested", attrVariant == "override"
 	rootAttrs := "*.bin filter=lfs diff=lfs merge=lfs -text\n*.dat filter=lfs -text\n"
 	switch attrVariant {
@@ -71,6 +71,10 @@ func c13Scenario(c *Ctx, idx int, r *Rng, extra func(l, m, cs string)) (mline, m
 		rootAttrs += "d.dat lockable\ndir/*.bin lockable\n"
 	case "override":
 		rootAttrs += "f.bin -filter\nf.bin filter=lfs -text\n"
+	case "padded":
+		// an attributes file of more than 1024 bytes (a commented one): it is no candidate for a pointer, but it is
+		// still the attributes file
+		rootAttrs = strings.Repeat("# this repository keeps its large files in Git LFS; see docs/large-files.md\n", 16) + rootAttrs
 	}
 	c.R.Count("fsck.attrs." + attrVariant)
 	w.write(".gitattributes", []byte(rootAttrs))
@@ -867,7 +871,7 @@ func c13AttrTie(c *Ctx, enc, p, rootAttrs string, nested, gitTracks, fsckNamed b
 		rel := strings.TrimPrefix(p, sc.dir)
 		for _, l := range strings.Split(strings.TrimSpace(sc.text), "\n") {
 			f := strings.Fields(l)
-			if len(f) < 2 {
+			if len(f) < 2 || strings.HasPrefix(f[0], "#") {
 				continue
 			}
 			pat := f[0]
